@@ -152,6 +152,9 @@ func writeListOrArray(e *Encoder, d *decodeState, ifWriteTag bool, tagName strin
 		d.scanNext()
 		return TagList, err
 	}
+	if d.opcode == scanError {
+		return TagList, d.error(d.scan.errContext)
+	}
 
 	// We don't know the length of the List,
 	// so we read them into a buffer and count.
